@@ -15,7 +15,9 @@ GEN = ["reservoir"]
 
 # grids: 1 = A, 2 = B (same length as A), 3 = C (other length); schedules 0/1 belong to grids A/B, 2 to C
 GRIDS = {1: np.linspace(0, 2.0, 9) ** 2 / 2.0, 2: np.linspace(0, 3.0, 9), 3: np.linspace(0, 1.0, 6)}
-OPS_BASE = [[0, 1], [0, 2], [0, 3], [2], [3], [4]]
+# grid 4: a longer forecast horizon that starts like grid A (the shared part re-resolved: equal to A within 3e-6 relative, not equal)
+GRIDS[4] = np.concatenate([GRIDS[1] * (1 + 3e-6), GRIDS[1][-1] + np.array([0.3, 0.7, 1.5])])
+OPS_BASE = [[0, 1], [0, 2], [0, 3], [0, 4], [2], [3], [4]]
 # a simulate call that raises before completing: [5, g] = simulate(grid g, <something inadmissible>): for the single-phase class a
 # frac-face schedule of the wrong length (ValueError), for the ideal class the time grid as a plain list (no .shape: AttributeError)
 OPS_REJ = [[5, 2], [5, 3]]
@@ -242,10 +244,10 @@ def run(ctx):
         fp = FlowProperties({k: v.copy() for k, v in tb.items()}, 8000.0)
     scheds = {0: np.linspace(6000.0, 1500.0, 9), 1: np.linspace(5000.0, 3000.0, 9), 2: np.linspace(7000.0, 500.0, 6)}
     total = 0
-    for cls, ops, maxlen in ((IdealReservoir, OPS_BASE + OPS_REJ[:1], 4 if ctx.quick else 5),
+    for cls, ops, maxlen in ((IdealReservoir, OPS_BASE + OPS_REJ[:1], 3 if ctx.quick else 5),
                              (SinglePhaseReservoir, OPS_BASE + OPS_SCHED + OPS_REJ, 3 if ctx.quick else 4)):
         env = Env(cls, fp, 8, 1000.0, 8000.0, scheds)
-        hs = histories(ctx, ops, maxlen, 150 if ctx.quick else 3000, rng, 8 if ctx.quick else 12)
+        hs = histories(ctx, ops, maxlen, 300 if ctx.quick else 3000, rng, 8 if ctx.quick else 12)
         syms = sym_histories(ctx, hs)
         if syms is None:
             return
@@ -294,7 +296,7 @@ def run(ctx):
                                            input=dict(cls=cls.__name__, computation=list(key)), observed="differs"))
         ctx.cov["pristine_process_references"] = ctx.cov.get("pristine_process_references", 0) + len(pick)
         ctx.samples.append(dict(cls=cls.__name__, history=hs[len(hs) // 2], model_outputs=syms[len(hs) // 2]))
-    ctx.cov.update(evaluations=total, distinct_nontrivial=total, exhaustive_up_to_length=dict(IdealReservoir=4 if ctx.quick else 5, SinglePhaseReservoir=3 if ctx.quick else 4),
+    ctx.cov.update(evaluations=total, distinct_nontrivial=total, exhaustive_up_to_length=dict(IdealReservoir=3 if ctx.quick else 5, SinglePhaseReservoir=3 if ctx.quick else 4),
                    rule="all histories up to the stated length over {simulate(A), simulate(B same length), simulate(C other length), "
                         "rf, rfd, interpolator} (+ simulate with schedules for the single-phase class), plus random longer histories; "
                         "for each, the Coq state machine (symbolic instance, vm_compute) says which fresh-object computation each "
